@@ -127,6 +127,8 @@ func c19Ordinal(n int) string {
 }
 
 // c19Expect renders the field picture used by the exhaustive sweep from the oracle's fields.
+const c19DefaultsPicture = "[Y]|[M]|[D]|[F]|[H]|[f]|[C]|[E]|[FN]|[Fn]|[FNn,*-3]|[FNn,3-4]|[Fn,*-2]|[MN]|[Mn]|[MNn,*-3]|[MNn,3-4]|[Mn,*-2]|[PN]|[Pn]|[P,*-1]|[z]|[ZN]|[D1o]|[Dw]|[DWw]"
+
 const c19FieldPicture = "[Y0001]|[M01]|[D01]|[d]|[F1]|[FNn]|[MNn]|[W]|[H01]|[h]|[P]|[m]|[s]|[f001]|[Z]|[D1o]|[w]|[Y,*-2]|[MN,*-3]|[d1o]|[Y1o]|[H1o]"
 
 func c19Expect(ms int64, offMin int) string {
@@ -221,6 +223,9 @@ func runC19(c *ctx) {
 		if (z-first)%modelStride == 0 {
 			// the same day through the Lean model
 			c.diffEval("$fromMillis(ms, p, tz)", map[string]interface{}{"ms": float64(ms), "p": c19FieldPicture, "tz": c19Tz(offMin)}, "sweep/model")
+			// default presentations of every component, name tables in all cases and widths (the language tables are
+			// tied through here, not read from the source)
+			c.diffEval("$fromMillis(ms, p, tz)", map[string]interface{}{"ms": float64(ms), "p": c19DefaultsPicture, "tz": c19Tz(offMin)}, "sweep/model-defaults")
 		}
 		if err != nil || res != want {
 			in := map[string]interface{}{"ms": float64(ms), "p": c19FieldPicture, "tz": c19Tz(offMin)}
